@@ -165,7 +165,7 @@ def sequence_cases(tier):
         for n in range(2, 100 if tier == 'quick' else 600):
             text = (unit * (n // len(unit) + 1))[:n]
             for ci, kw in enumerate(({'version': 1}, {'version': 1, 'boost_error': False}, {'symbol_count': 2}, {'symbol_count': 3, 'boost_error': False},
-                                     {'version': 2, 'error': 'Q'}, {'symbol_count': 7, 'error': 'M'})):
+                                     {'version': 2, 'error': 'Q'}, {'symbol_count': 7, 'error': 'M'}, {'symbol_count': 1}, {'symbol_count': 1, 'error': 'M', 'boost_error': False})):
                 if 'version' in kw and n > 150:
                     continue  # keeps clear of the 16 symbol limit (known finding K3 of C08)
                 if (n + ci) % 2 and tier == 'quick' and n > 50:
@@ -194,6 +194,6 @@ def phases(tier, seed):
         Enum('steered', lambda: steered(tier, seed), exhaustive=False,
              note='lengths around the capacity of every listed (version, level, mode) and two-part mixes'),
         Enum('sequences', lambda: sequence_cases(tier), exhaustive=False,
-             note='every symbol of Structured Append sequences (lengths 2..99 / ..599 x 3 modes x 6 option sets); cells are counted as SA-...'),
+             note='every symbol of Structured Append sequences (lengths 2..99 / ..599 x 3 modes x 8 option sets incl. symbol_count=1); cells are counted as SA-...'),
         Search('generated', gens.make_cases(big=0.05), n),
     ] + _fuzz(tier)
